@@ -140,12 +140,20 @@ def run_gen(prop, tier, gen, workdir):
                      "cases": n, "wall_s": round(dt, 1)}
 
 
-def run_driver(scenario, seed, tier, out_path, cases=None, timeout=3600):
+class DriverCrashed(Exception):
+    pass
+
+
+def run_driver(scenario, seed, tier, out_path, cases=None, timeout=3600, crash_ok=False):
     cmd = ["timeout", str(timeout), DRIVER, scenario, "--out", out_path, "--seed", str(seed), "--tier", tier]
     if cases:
         cmd += ["--cases", cases]
     r = subprocess.run(cmd, capture_output=True, text=True)
     if r.returncode != 0:
+        # the process was killed by a signal (timeout(1) reports 128+n, python a negative code): the code under
+        # test crashed the process - for scenarios that exercise an unchecked cast that is an observation
+        if crash_ok and (r.returncode < 0 or r.returncode in (132, 134, 135, 136, 139)):
+            raise DriverCrashed(f"driver {scenario} died with status {r.returncode}: {(r.stdout + r.stderr)[-1500:]}")
         tool_error(f"driver {scenario} failed rc={r.returncode}: {(r.stdout + r.stderr)[-2000:]}")
     return r.stdout.strip()
 
@@ -343,8 +351,20 @@ def main():
                 log(f"[{prop}] driver {gen['scenario']}: {msg}")
                 traces.append((gen["name"], out))
             for sc in P.get("scenarios", []):
+                crash_sig = None
+                if isinstance(sc, dict):
+                    sc, crash_sig = sc["name"], sc.get("crash_is_violation")
                 out = os.path.join(work, sc + ".trace.ndjson")
-                msg = run_driver(sc, seed, tier, out)
+                try:
+                    msg = run_driver(sc, seed, tier, out, crash_ok=bool(crash_sig))
+                except DriverCrashed as e:
+                    os.makedirs(os.path.join(V, "replays"), exist_ok=True)
+                    rp = os.path.join(V, "replays", f"{prop}-s{seed}-{sc}-crash.txt")
+                    with open(rp, "w") as f:
+                        f.write(f"scenario: {sc} (re-run: harness driver {sc} --seed {seed} --tier {tier})\n{e}\n")
+                    violations.append((crash_sig, rp, str(e)[:400]))
+                    log(f"[{prop}] driver {sc}: CRASHED")
+                    continue
                 log(f"[{prop}] driver {sc}: {msg}")
                 traces.append((sc, out))
 
